@@ -125,6 +125,15 @@ impl Director for ScriptDirector {
         }
     }
 
+    fn spin_adv(&mut self, _view: &View, _n: u32) -> Option<u64> {
+        if let Some(Step::Adv { to }) = self.steps.front() {
+            let to = *to;
+            self.steps.pop_front();
+            return Some(to);
+        }
+        None
+    }
+
     fn top(&mut self, _view: &View) -> TopDec {
         if let Some(msg) = self.pending_mismatch.take() {
             return TopDec::Mismatch(msg);
